@@ -198,6 +198,10 @@ Definition pw_blocks_spec (enc : bool) (f : fmt) (t : node) : list str :=
   | NStr _ _ => []
   end.
 
+(* ---- whitespace: the code points str.strip() removes ---- *)
+Definition nows (s : str) : str := filter (fun c => negb (is_ws c)) s.
+Definition all_ws (s : str) : bool := forallb is_ws s.
+
 (* no tag below the starting element is hidden (only the BeautifulSoup object is, and it is
    skipped by the traversal) *)
 Fixpoint no_hidden (t : node) : bool :=
